@@ -61,7 +61,7 @@ PROPS = {
     "C29": _p("one evaluation = one seeded history of 20-140 blocks; per block a well-formed 2-4 member group and 2-4 variants of it whose group id no longer commits to the submitted members (member dropped / added / reordered / altered, id recomputed for one member or over a subset, one member without id; all members correctly re-signed) are offered to the evaluator directly and through the submission pipeline; "
               "tampered variants of every generated block (payset entries swapped / removed / duplicated / edited incl. ApplyData without updating TxnCommitments, the same with all but one commitment recomputed, Branch / Branch512 bit flips or grandparent hash, Round +-1, TxnCounter +-1, single commitment bit flips) must have ContentsMatchHeader()==false where the payset was touched and must be rejected by Ledger.Validate; "
               "non-trivial = >=1 group variant judged AND >=1 payset variant AND >=1 header variant judged; distinct = distinct event-log digest",
-              "deterministic simulation with poison groups and a corrupting-transport / Byzantine-proposer tamper fault on generated blocks",
+              "deterministic simulation with poison groups and a corrupting-transport / Byzantine-proposer tamper fault on generated blocks; second pass (catchupsim): the real catchup service fed by tampering peers, every ledger write judged against the canonical block",
               "No explored group with a non-matching group id was accepted by the evaluator; no explored block whose payset differs from its commitments or whose header does not link to the previous block validated.",
               "DESIGN.md §4 C29"),
 }
